@@ -314,6 +314,13 @@ class Bounds:
     a: Exc1 = 1
     b: List[Exc2] = field(default_factory=list)
     c: Optional[Exc3] = None
+
+# a recursive root (referenced: its schema is a $ref next to the definitions) carrying validation keywords of its own
+@dataclass
+class RecNode:
+    value: int = 0
+    children: List["RecNode"] = field(default_factory=list)
+RecNodeCapped = Annotated[RecNode, schema(max_props=1)]
 '''
 
 
@@ -338,6 +345,7 @@ def run_worlds(st):
         ("Exc2", m.Exc2, [0, 4.5, 5, 7.5, 10, 10.5, 20]),
         ("Exc3", m.Exc3, [0, 5, 5.5, 9.5, 10, 11]),
         ("Bounds", m.Bounds, [{}, {"a": 0}, {"a": 10}, {"a": 5, "b": [5, 9.5]}, {"b": [4]}, {"b": [10]}, {"c": 5}, {"c": 6}, {"c": None}, {"c": 10}]),
+        ("RecNodeCapped", m.RecNodeCapped, [{}, {"value": 1}, {"children": []}, {"value": 1, "children": []}, {"children": [{"value": 2, "children": []}]}, {"children": [{"value": "x"}]}]),
         ("Ann", m.Ann, [{"type": "Online"}, {"type": "Online", "card": "4"}, {"type": "Shop", "till": [1, "a"]}, {"type": "Shop", "till": [1]}, {"type": "x"}, {}]),
     ]
     try:
